@@ -1254,6 +1254,29 @@ fn validate_partition_sequence(
     }
 }
 
+/// Re-exports of private helpers for the external verification harness (replay runner).
+/// Compiled only with `--cfg sierra_db_sierradb_verif`; adds no behaviour.
+#[cfg(sierra_db_sierradb_verif)]
+pub mod verif_hooks {
+    use super::*;
+
+    pub fn validate_partition_sequence(
+        partition_id: PartitionId,
+        expected: ExpectedVersion,
+        next_partition_sequence: u64,
+    ) -> Result<(), WriteError> {
+        super::validate_partition_sequence(partition_id, expected, next_partition_sequence)
+    }
+
+    pub fn bucket_id_to_thread_id(
+        bucket_id: BucketId,
+        bucket_ids: &[BucketId],
+        num_threads: u16,
+    ) -> Option<u16> {
+        super::bucket_id_to_thread_id(bucket_id, bucket_ids, num_threads)
+    }
+}
+
 #[cfg(test)]
 mod tests {
     use std::collections::HashMap;
